@@ -67,6 +67,18 @@ def _r1(w: World, rep: Report, fields):
         sites = tape_sites(w, fi)
         for s in sites:
             role = s.role()
+            if role == 'plugin':
+                # a tape handed to the plugin runner must carry the parent's plugins (and contracts)
+                for field in ('plugins', 'contracts'):
+                    e = s.field_expr(field, fields)
+                    ok, why = False, f'the tape given to the plugin runner is built without the parent\'s {field}'
+                    if e is not None:
+                        ps = _paths_of(kinds, kinds.of(e, s.node))
+                        want = f'{own}.{field}'
+                        ok = bool(ps) and all(p in (want, 'copy:' + want) for p in ps)
+                        why = '' if ok else f'{field} for the plugin runner comes from {ps}, not from {want}'
+                    rep.check('C09.R1', f'functions.{fname}|plugin-tape|Tape({field})', ok, line=s.line, file=REL, why=why)
+                continue
             if role not in ('exec', 'definition'):
                 continue
             sites_seen += 1
